@@ -14,6 +14,14 @@ if go test -count=1 ./... 2>&1 | grep -v "no test files" | grep -q "^FAIL\|^--- 
 DEMO=$(ls "$DIR"/*_test.go | head -1)
 cp "$DEMO" "$TARGET"
 PKG=./$(dirname "$TARGET")
-if go test -count=1 -run 'Seeded|Demo|TestKeeperTestSuite' $PKG -testify.m 'Seeded|Demo' 2>&1 | grep -q "^--- FAIL\|^FAIL"; then echo "demo FAILS with change (expected)"; else echo "DEMO DOES NOT FAIL WITH CHANGE"; fi
+# testify suites need -testify.m to select a method; a package without a suite does not know the flag
+rundemo() {
+  if grep -q "suite\.\|KeeperTestSuite" "$TARGET"; then
+    go test -count=1 -run 'Seeded|Demo|TestKeeperTestSuite' $PKG -testify.m 'Seeded|Demo' 2>&1
+  else
+    go test -count=1 -run 'Seeded|Demo' $PKG 2>&1
+  fi
+}
+if rundemo | grep -q "^--- FAIL\|^FAIL"; then echo "demo FAILS with change (expected)"; else echo "DEMO DOES NOT FAIL WITH CHANGE"; fi
 git apply -R "$DIR/patch.diff"
-if go test -count=1 -run 'Seeded|Demo|TestKeeperTestSuite' $PKG -testify.m 'Seeded|Demo' 2>&1 | grep -q "^--- FAIL\|^FAIL"; then echo "DEMO FAILS WITHOUT CHANGE"; else echo "demo passes without change (expected)"; fi
+if rundemo | grep -q "^--- FAIL\|^FAIL"; then echo "DEMO FAILS WITHOUT CHANGE"; else echo "demo passes without change (expected)"; fi
